@@ -293,7 +293,7 @@ META = dict(
 )
 
 MANIFEST = dict(
-    text="For C03: the real pipeline (reader, constructor, termini, repair, hydrogens, optimisation, force field) on tripeptides whose heavy-atom completeness, a foreign atom, an input hydrogen and the options assign-only/debump/opt are symbolic selectors - every feasible valuation is executed: either a loud error, or every input heavy atom is kept once (or its deletion logged), written + unassigned = final model, fully parameterised residues carry exactly the atom set of their final topology, no LP*/FLIP placeholder or duplicate name survives; the real Water.complete from every pre-state of hydrogens / lone pairs in every list order; first-occurrence-wins ingestion and the symbolic-residue-name --drop-water obligation through C07's harness; the real Carboxylic optimisation (try_acceptor / try_donor / fix / finalize / complete + cleanup on ASH and GLH, outcomes of the geometric tests symbolic selectors) ends with the atom set of the topology and exactly one acid proton. Round 4: every atom of the list handed to the printer is written for every chain-change pattern and layout (the atom-list harness of C08).",
+    text="For C03: the real pipeline (reader, constructor, termini, repair, hydrogens, optimisation, force field) on tripeptides whose heavy-atom completeness, a foreign atom, an input hydrogen and the options assign-only/debump/opt are symbolic selectors - every feasible valuation is executed: either a loud error, or every input heavy atom is kept once (or its deletion logged), written + unassigned = final model, fully parameterised residues carry exactly the atom set of their final topology, no LP*/FLIP placeholder or duplicate name survives; the real Water.complete from every pre-state of hydrogens / lone pairs in every list order; first-occurrence-wins ingestion and the symbolic-residue-name --drop-water obligation through C07's harness; the real Carboxylic optimisation (try_acceptor / try_donor / fix / finalize / complete + cleanup on ASH and GLH, outcomes of the geometric tests symbolic selectors) ends with the atom set of the topology and exactly one acid proton. Round 4: every atom of the list handed to the printer is written for every chain-change pattern and layout (the atom-list harness of C08). Round 5: --whitespace keeps HETATM lines with five-digit serials; chain view after a hidden-chain-end split (C02 harness, strict).",
     note="Trusted: z3 (feasibility of selector valuations), symx. The selectors are concretised by forking, so this is exhaustive over the stated finite space rather than symbolic in numeric values. The optimisation search over whole H-bond networks is outside (single-residue attempt sequences of length <= 2 are inside for carboxylic acids).",
     technique="symbolic selectors + path exploration of the real pipeline (symx); symbolic pre-state for Water.complete",
     design="DESIGN.md section 3 C03",
